@@ -465,11 +465,19 @@ sadump_bmp_cleanup(const kdump_bmp_t *bmp)
 	shared_decref(shared);
 }
 
+static void
+sadump_bmp_cleanup_locked(const kdump_bmp_t *bmp)
+{
+	struct kdump_shared *shared = bmp->priv;
+	shared_decref_locked(shared);
+}
+
 static const struct kdump_bmp_ops sadump_bmp_ops = {
 	.get_bits = sadump_get_bits,
 	.find_set = sadump_find_set,
 	.find_clear = sadump_find_clear,
 	.cleanup = sadump_bmp_cleanup,
+	.cleanup_locked = sadump_bmp_cleanup_locked,
 };
 
 static const struct kdump_bmp_ops mem_pagemap_ops = {
@@ -477,6 +485,7 @@ static const struct kdump_bmp_ops mem_pagemap_ops = {
 	.find_set = sadump_mem_find_set,
 	.find_clear = sadump_mem_find_clear,
 	.cleanup = sadump_bmp_cleanup,
+	.cleanup_locked = sadump_bmp_cleanup_locked,
 };
 
 
